@@ -164,7 +164,8 @@ def run(pid, tier, seed):
     for k in range(120 if quick else 1500):
         r = rng.fork("short%d" % k)
         lp = r.choice(seeds + [None, None])
-        ops, kinds = histrun.gen_history(r, r.rint(3, 14), start_lp=lp)
+        # every second history contains rejected calls: what follows them must still behave like the reference model
+        ops, kinds = histrun.gen_history(r, r.rint(3, 14), start_lp=lp, p_invalid=0.08 if k % 2 else 0.0)
         jobs.append(("new 0 " + lp.line() if lp is not None else "create 0 " + r.choice(["min", "max"]), ops, kinds, "short"))
     # long histories that cross the growth thresholds (100 rows/cols, 1000 non-zeros)
     for k in range(3 if quick else 24):
